@@ -344,6 +344,9 @@ def run(ctx):
     for q, what in sorted(probe.layout_dependent.items()):
         ctx.violation('%s: %s' % (q, what), {'callable': q, 'how': 'run ./check C20; the probe repeats the call with copies of the arguments whose last two axes are exchanged in memory'},
                       {'fn': q, 'what': 'layout_dependent'})
+    for q, what in sorted(probe.setting_dependent.items()):
+        ctx.violation('%s: %s' % (q, what), {'callable': q, 'how': 'run ./check C20; the probe repeats the call under torch.set_default_dtype(torch.float64) '
+                                                              'and torch.set_grad_enabled(False)'}, {'fn': q, 'what': 'setting_dependent'})
     for q, what in sorted(probe.argument_type_dependent.items()):
         ctx.violation('%s: %s' % (q, what), {'callable': q, 'how': 'run ./check C20; the probe repeats the call with one argument handed over in another ordinary type'},
                       {'fn': q, 'what': 'argument_type_dependent'})
